@@ -8,8 +8,8 @@ pub use crate::api::GGLWEToGGSWKeyCompressedEncryptSk;
 use crate::{
     EncryptionInfos, GGLWECompressedEncryptSk, GetDistribution, ScratchTakeCore,
     layouts::{
-        GGLWEInfos, GGLWEToGGSWKeyCompressed, GGLWEToGGSWKeyCompressedToMut, GLWEInfos, GLWESecret, GLWESecretTensor,
-        GLWESecretTensorFactory, GLWESecretToRef, prepared::GLWESecretPreparedFactory,
+        GGLWECompressedSeed, GGLWEInfos, GGLWEToGGSWKeyCompressed, GGLWEToGGSWKeyCompressedToMut, GLWEInfos, GLWESecret,
+        GLWESecretTensor, GLWESecretTensorFactory, GLWESecretToRef, prepared::GLWESecretPreparedFactory,
     },
 };
 
@@ -79,11 +79,15 @@ where
             self.gglwe_to_ggsw_key_encrypt_sk_tmp_bytes(res)
         );
 
-        let res: &mut GGLWEToGGSWKeyCompressed<&mut [u8]> = &mut res.to_mut();
         let rank: usize = res.rank_out().as_usize();
 
-        let (mut sk_prepared, scratch_1) = scratch.take_glwe_secret_prepared(self, res.rank());
-        let (mut sk_tensor, scratch_2) = scratch_1.take_glwe_secret_tensor(self.n().into(), res.rank());
+        // The borrowed view holds a copy of the per-cell seeds: keep what each
+        // sub-key draws and store it in `res` once the view is released.
+        let mut seeds: Vec<Vec<[u8; 32]>> = Vec::with_capacity(rank);
+        let mut res_mut: GGLWEToGGSWKeyCompressed<&mut [u8]> = res.to_mut();
+
+        let (mut sk_prepared, scratch_1) = scratch.take_glwe_secret_prepared(self, res_mut.rank());
+        let (mut sk_tensor, scratch_2) = scratch_1.take_glwe_secret_tensor(self.n().into(), res_mut.rank());
         self.glwe_secret_prepare(&mut sk_prepared, sk);
         self.glwe_secret_tensor_prepare(&mut sk_tensor, sk, scratch_2);
 
@@ -99,7 +103,7 @@ where
             let (seed_xa_tmp, _) = source_xa.branch();
 
             self.gglwe_compressed_encrypt_sk(
-                res.at_mut(i),
+                res_mut.at_mut(i),
                 &sk_ij,
                 &sk_prepared,
                 seed_xa_tmp,
@@ -107,6 +111,13 @@ where
                 source_xe,
                 scratch_3,
             );
+
+            seeds.push(res_mut.at(i).seed().clone());
+        }
+
+        drop(res_mut);
+        for (i, seeds_i) in seeds.iter().enumerate() {
+            res.seed_mut(i).copy_from_slice(seeds_i);
         }
     }
 }
